@@ -136,12 +136,14 @@ Definition field (s : bytes) : option (bytes * bytes) :=
   match ident s with
   | Some (i, r) =>
       match r with
-      | 46 :: r1 =>
-          match ident r1 with
-          | Some (j, r2) => Some (i ++ 46 :: j, r2)
-          | None => Some (i, r)
-          end
-      | _ => Some (i, r)
+      | c :: r1 =>
+          if c =? 46 then
+            match ident r1 with
+            | Some (j, r2) => Some (i ++ 46 :: j, r2)
+            | None => Some (i, r)
+            end
+          else Some (i, r)
+      | [] => Some (i, r)
       end
   | None => None
   end.
@@ -149,18 +151,23 @@ Definition field (s : bytes) : option (bytes * bytes) :=
 (** [rule string_literal() = ''' chars:$((!''' [_])* ) '''] — no escapes. *)
 Definition string_lit (s : bytes) : option (bytes * bytes) :=
   match s with
-  | 34 :: r =>
-      let '(a, r') := span (fun c => negb (c =? 34)) r in
-      match r' with
-      | 34 :: r'' => Some (a, r'')
-      | _ => None
-      end
-  | _ => None
+  | c :: r =>
+      if c =? 34 then
+        let '(a, r') := span (fun c => negb (c =? 34)) r in
+        match r' with
+        | q :: r'' => if q =? 34 then Some (a, r'') else None
+        | [] => None
+        end
+      else None
+  | [] => None
   end.
 
 (** [rule integer() = $(('-')? ['0'..='9']+)]: sign flag and digit string. *)
 Definition integer (s : bytes) : option ((bool * bytes) * bytes) :=
-  let '(neg, r) := match s with 45 :: r => (true, r) | _ => (false, s) end in
+  let '(neg, r) := match s with
+                   | c :: r => if c =? 45 then (true, r) else (false, s)
+                   | [] => (false, s)
+                   end in
   let '(d, r') := span is_digit r in
   match d with [] => None | _ => Some ((neg, d), r') end.
 
@@ -169,13 +176,15 @@ Definition number_text (s : bytes) : option ((bool * bytes * option bytes) * byt
   match integer s with
   | Some ((neg, d), r) =>
       match r with
-      | 46 :: r1 =>
-          let '(fd, r2) := span is_digit r1 in
-          match fd with
-          | [] => Some ((neg, d, None), r)
-          | _ => Some ((neg, d, Some fd), r2)
-          end
-      | _ => Some ((neg, d, None), r)
+      | c :: r1 =>
+          if c =? 46 then
+            let '(fd, r2) := span is_digit r1 in
+            match fd with
+            | [] => Some ((neg, d, None), r)
+            | _ => Some ((neg, d, Some fd), r2)
+            end
+          else Some ((neg, d, None), r)
+      | [] => Some ((neg, d, None), r)
       end
   | None => None
   end.
@@ -319,15 +328,20 @@ Definition value : P jval :=
            (fun s => match ident s with Some (a, r) => Ok (VStr a, r) | None => Err end)).
 
 (** [rule cmp_op()] — ordered: '!=' '>=' '<=' '=' '>' '<' *)
+Definition cmp_op1 (c : N) (r : bytes) : option (cmpop * bytes) :=
+  if c =? 61 then Some (OpEq, r) else if c =? 62 then Some (OpGt, r) else if c =? 60 then Some (OpLt, r) else None.
 Definition cmp_op (s : bytes) : option (cmpop * bytes) :=
   match s with
-  | 33 :: 61 :: r => Some (OpNeq, r)
-  | 62 :: 61 :: r => Some (OpGte, r)
-  | 60 :: 61 :: r => Some (OpLte, r)
-  | 61 :: r => Some (OpEq, r)
-  | 62 :: r => Some (OpGt, r)
-  | 60 :: r => Some (OpLt, r)
-  | _ => None
+  | c :: r =>
+      match r with
+      | d :: r' =>
+          if (c =? 33) && (d =? 61) then Some (OpNeq, r')
+          else if (c =? 62) && (d =? 61) then Some (OpGte, r')
+          else if (c =? 60) && (d =? 61) then Some (OpLte, r')
+          else cmp_op1 c r
+      | [] => cmp_op1 c r
+      end
+  | [] => None
   end.
 
 (** the separator [_ ',' _] *)
